@@ -62,5 +62,5 @@ def interleaved_histories(r, thorough):
 
 
 def run(tier, replay=None):
-    return srvprops.run(PROP, THEOREMS, tier, replay, extra_gen=lambda r, th: interleaved_histories(r, th) + sl.kick_histories(r, th) + sl.stalled_drop_histories(r, th) + sl.cut_histories(r, th) + sl.oversize_histories(r, th),
-                        rule_note="plus interleaved histories: a LEAVE / disconnect clean-up suspended in its modulator notification while another connection joins, leaves or re-identifies; judged by the CHANNELS-vs-MEMBERS audit; plus members that stop reading and vanish while the server is blocked writing to them (connection ends through the write-error path); plus a member's request stream cut at sampled (thorough: all) byte offsets followed by the drop of the connection; plus small message buffers with long names, where unsolicited frames that do not fit end the receiving connection (compared with Model/ServerX.step_x); plus directed removal histories: an owner removes a member with LEAVE on_behalf, then drops / fills its own limit / the removed member re-joins up to its limit / a namesake reconnects and probes ownership; ends with the CHANNELS-vs-MEMBERS audit (members must be alive)")
+    return srvprops.run(PROP, THEOREMS, tier, replay, extra_gen=lambda r, th: interleaved_histories(r, th) + sl.kick_histories(r, th) + sl.stalled_drop_histories(r, th) + sl.cut_histories(r, th) + sl.oversize_histories(r, th) + sl.failed_event_histories(r, th),
+                        rule_note="plus interleaved histories: a LEAVE / disconnect clean-up suspended in its modulator notification while another connection joins, leaves or re-identifies; judged by the CHANNELS-vs-MEMBERS audit; plus members that stop reading and vanish while the server is blocked writing to them (connection ends through the write-error path); plus a member's request stream cut at sampled (thorough: all) byte offsets followed by the drop of the connection; plus small message buffers with long names, where unsolicited frames that do not fit end the receiving connection (compared with Model/ServerX.step_x); plus directed failed-notification histories (the modulator's event forwarding fails exactly on a MEMBER_LEFT: member leaves, owner removes a member, last member leaves and the channel is re-created, disconnect clean-up); plus directed removal histories: an owner removes a member with LEAVE on_behalf, then drops / fills its own limit / the removed member re-joins up to its limit / a namesake reconnects and probes ownership; ends with the CHANNELS-vs-MEMBERS audit (members must be alive)")
